@@ -21,7 +21,7 @@ ROOT = os.path.dirname(os.path.dirname(os.path.dirname(os.path.abspath(__file__)
 
 def sizes(ctx):
     if ctx.quick:
-        return dict(core=350, excon=150, nola=40, wide=30, retry=120, flags=60, fusion=100)
+        return dict(core=260, excon=110, nola=30, wide=24, retry=90, flags=50, fusion=70)
     return dict(core=15000, excon=6000, nola=800, wide=800, retry=3000, flags=3000, fusion=3000)
 
 def limited(rng, base):
@@ -34,8 +34,9 @@ def gen_cases(ctx):
     n = sizes(ctx)
     la_other = [r for r in rc['la'] if r != 'trypsin']
     cases = []
+    nvars = [2, 3, 3, 4, 4, 5] if ctx.quick else [2, 3, 4, 5, 6, 7, 7]      # quick: at most 5 records per cluster
     def add(stream, rule, exc_on, coding_p, pair):
-        c = CG.gen_case(rng, coding_p=coding_p, nvar=rng.choice([2, 3, 4, 5, 6, 7, 7]))
+        c = CG.gen_case(rng, coding_p=coding_p, nvar=rng.choice(nvars))
         base = CG.gen_run(rng, rule=rule, exc_on=exc_on)
         lim = limited(rng, base)
         c['runs'] = [lim, dict(base, skip_oracle=True)] if pair else [lim]
@@ -53,6 +54,10 @@ def gen_cases(ctx):
         sect, w2f = rng.choice([(True, False), (False, True), (True, True)])
         c = CG.gen_twosec_case(rng) if (sect and rng.random() < 0.4) else CG.gen_case(rng, coding_p=0.85, nvar=rng.choice([2, 3, 4, 5, 6]))
         c['runs'] = [limited(rng, CG.gen_run(rng, rule='trypsin', exc_on=False, sect=sect, w2f=w2f))]
+        if w2f and CK.max_w_run(c, c['runs'][0], c['runs'][0]['max_len']) > 6:
+            c['runs'][0].update(w2f=False, extra=[e for e in c['runs'][0]['extra'] if e != '--w2f-reassignment'])   # 2^w images: keep w <= 6
+            if not c['runs'][0]['sect']:
+                c['runs'][0].update(sect=True, extra=['--selenocysteine-termination'])
         c['stream'] = 'flags'
         cases.append(c)
     # fusion transcripts (Model/SpecFusion.v): donor[:bp] ++ acceptor[bp':], exonic breakpoints
@@ -234,9 +239,7 @@ def run(ctx):
                 seen.add(k); uniq.append(v)
         violations = uniq
     cases = gen_cases(ctx)
-    B = 1500
-    for i in range(0, len(cases), B):
-        judge(CK.run_batch(ctx, cases[i:i + B], tag='c02'), violations, stats)
+    stream_wall = CK.run_streams(ctx, cases, judge, violations, stats, want_may=True, tag='c02')
     keep, cnt = [], collections.Counter()
     for v in violations:
         if v.get('finding'):
@@ -253,7 +256,7 @@ def run(ctx):
                 samples=samples, distribution=CK.dist_of(cases), stats=dict(stats),
                 slack={'may_novel_minus_out': stats['slack_may_minus_out'], 'out_minus_must': stats['slack_out_minus_must'],
                        'out_peptides': stats['out_peptides']},
-                known_finding_counts=dict(cnt), engine_tied_by='correspondence',
+                known_finding_counts=dict(cnt), engine_tied_by='correspondence', stream_wall_s=stream_wall,
                 violations=keep,
                 assumptions=['records are SNV / MNV / INDEL on linear transcripts (fusion, alternative splicing, circRNA not generated: property partial for them)',
                              'timeouts are forced inside the worker process (monkeypatched call_variant_peptides_wrapper), real SIGALRM timeouts are not exercised',
